@@ -78,7 +78,9 @@ func (c Comment) String() string {
 	if c.Text != "" {
 		return "# " + strings.TrimSpace(c.Text) + "\n"
 	}
-	return ""
+	// An empty comment still occupies its line, dropping it would join
+	// the comments above it to whatever comes below
+	return "#\n"
 }
 
 // Literal returns the go literal version of the comment e.g. "# This is a comment".
@@ -194,7 +196,9 @@ func (t Task) String() string {
 		}
 	}
 
-	s.WriteString(t.Docstring.String())
+	if t.Docstring.Text != "" {
+		s.WriteString(t.Docstring.String())
+	}
 
 	s.WriteString("task ")
 	s.WriteString(t.Name.String())
